@@ -84,7 +84,7 @@ func (e *Engine) verifyFunc(key string) (vc *VC, err error) {
 	}
 	fr.topNames = names
 	for i, rq := range c.Requires {
-		t, err := fr.evalClause(rq, &evalCtx{fr: fr, st: fr.st, old: fr.entry, names: names})
+		t, err := fr.evalClause(rq, &evalCtx{fr: fr, st: fr.st, old: fr.entry, names: names, assuming: true})
 		if err != nil {
 			fr.stale(clauseName("requires", i, rq), err)
 			continue
@@ -152,7 +152,7 @@ func (e *Engine) assumeEntryInvariants(fr *Frame, names map[string]*Val) { fr.as
 // the contract file (assume-invariant) in the current state.
 func (fr *Frame) assumeGlobalInvariants() {
 	for _, inv := range fr.eng.cf.AssumedInvs {
-		t, err := fr.evalClause(inv, &evalCtx{fr: fr, st: fr.st, old: fr.st, names: map[string]*Val{}, callee: "assume-invariant"})
+		t, err := fr.evalClause(inv, &evalCtx{fr: fr, st: fr.st, old: fr.st, names: map[string]*Val{}, callee: "assume-invariant", assuming: true})
 		if err != nil {
 			fr.stale("assume-invariant "+inv.Label, err)
 			continue
